@@ -44,7 +44,26 @@ type lpara struct {
 	LevelUndef bool
 	// odt li: the item is written as <text:list-item> without any <text:p> (Empty only).
 	NoPara bool
+	// h via outline: the body (non-heading) paragraph style the heading is written in, as
+	// one of bodyVias ("" = no style at all). The outline level is direct formatting of
+	// this ONE paragraph (ECMA-376 17.3.1.20: w:outlineLvl in the paragraph's own w:pPr;
+	// ODF: text:h with its text:outline-level) - it says nothing about the style, nor
+	// about any other paragraph written in that style, before or after it.
+	Plain string
+	// docx p / h via outline: more direct formatting in the paragraph's own w:pPr beside
+	// its style: Jc = the w:jc value (with w:spacing and w:ind), "" = none.
+	Jc string
+	// docx p: w:outlineLvl 9 written out in the paragraph's own w:pPr - "body text", no
+	// level (ECMA-376 17.3.1.20): the paragraph is a plain paragraph all the same.
+	Out9 bool
 }
+
+// bodyVias: the non-heading paragraph styles a document may use as its body style
+// (p.Via values): an italic style, a bold 11 pt style, a style in a basedOn cycle, a
+// style id that styles.xml does not define, and the default paragraph style named
+// explicitly. (bigbold is left out: a bold style of 14 pt and more may be taken for a
+// heading style by the documented heuristic, see props/C16.json.)
+var bodyVias = []string{"quote", "boldsmall", "cycplain", "undef", "normal"}
 
 // empty: a list item without text of its own (odt): it shows nothing, and whatever is
 // nested below it stays.
@@ -97,6 +116,10 @@ type ldoc struct {
 	Meta      bool
 	NoOutline bool // the built-in heading styles are written without an outline level
 	Fam       *family
+	// Body: the document has a body style (one of bodyVias) that most of its plain
+	// paragraphs, some cell paragraphs and the headings made by a direct outline level are
+	// written in; "" = no such style.
+	Body      string
 	Grid      bool // drawn by genGridDoc: the subject is the table grid
 	Edge      bool // drawn by genEdgeDoc: numeric attributes at the edges of their range
 	ntok      int
@@ -338,6 +361,17 @@ func (d *ldoc) genPara(r *hx.Rng) *lpara {
 	if d.Styles && r.Chance(1, 3) {
 		p.Via = hx.Pick(r, []string{"quote", "boldsmall", "bigbold", "cycplain"})
 	}
+	if d.Body != "" {
+		if r.Chance(3, 5) {
+			p.Via = d.Body
+		}
+		if d.Format == "docx" {
+			if r.Chance(1, 4) {
+				p.Jc = hx.Pick(r, []string{"center", "right", "both"})
+			}
+			p.Out9 = r.Chance(1, 6)
+		}
+	}
 	return p
 }
 
@@ -350,6 +384,16 @@ func (d *ldoc) genHeading(r *hx.Rng) *lpara {
 		p.Via = hx.Pick(r, []string{"builtin", "custom", "inherited", "inherited2", "name", "outline", "cyclic"})
 	} else {
 		p.Via = hx.Pick(r, []string{"builtin", "outline"})
+	}
+	if d.Body != "" && r.Bool() {
+		// a heading made by direct formatting of a paragraph of the body text
+		p.Via = "outline"
+		if r.Chance(4, 5) {
+			p.Plain = d.Body
+		}
+		if d.Format == "docx" && r.Chance(1, 4) {
+			p.Jc = hx.Pick(r, []string{"center", "right", "both"})
+		}
 	}
 	return p
 }
@@ -417,6 +461,9 @@ func (d *ldoc) fillCells(r *hx.Rng, t *ltable, depth int) {
 				}
 				if d.Fam != nil && r.Chance(1, 3) {
 					cp.Fam = hx.Pick(r, d.Fam.Styles).ID // a cell paragraph in a style of the family
+				}
+				if d.Body != "" && r.Chance(1, 3) {
+					cp.Fam, cp.Via = "", d.Body // a cell paragraph in the body style
 				}
 				cell.Paras = append(cell.Paras, cp)
 			}
@@ -640,6 +687,11 @@ func genDoc(r *hx.Rng, format string) *ldoc {
 		d.Fam = genFamily(r, format)
 		n = r.Range(3, 10)
 	}
+	if r.Bool() {
+		// without a styles part every style id is an undefined one
+		d.Body = hx.Pick(r, bodyVias)
+		n = max(n, r.Range(3, 10))
+	}
 	lastLevel := -1
 	for len(d.Blocks) < n {
 		if d.Fam != nil && r.Chance(2, 5) {
@@ -821,10 +873,10 @@ func (t *ltable) tokens() []ptok {
 
 func (d *ldoc) canon() string {
 	var b strings.Builder
-	fmt.Fprintf(&b, "%s s%v n%v h%v f%v F%s|", d.Format, d.Styles, d.Numbering, d.Header, d.Footer, d.Fam.canon())
+	fmt.Fprintf(&b, "%s s%v n%v h%v f%v F%s B%s|", d.Format, d.Styles, d.Numbering, d.Header, d.Footer, d.Fam.canon(), d.Body)
 	for _, bl := range d.Blocks {
 		if bl.P != nil {
-			fmt.Fprintf(&b, "%s/%d%s%v/%s%s/%d/%q;", bl.P.Kind, bl.P.Level, bl.P.RawLevel, bl.P.NoPara, bl.P.Via, bl.P.Fam, bl.P.NumID, bl.P.wantText())
+			fmt.Fprintf(&b, "%s/%d%s%v/%s%s%s%s%v/%d/%q;", bl.P.Kind, bl.P.Level, bl.P.RawLevel, bl.P.NoPara, bl.P.Via, bl.P.Fam, bl.P.Plain, bl.P.Jc, bl.P.Out9, bl.P.NumID, bl.P.wantText())
 			for _, ru := range bl.P.Runs {
 				b.WriteString(ru.Wrap + ",")
 			}
@@ -835,7 +887,7 @@ func (d *ldoc) canon() string {
 					if cell := bl.T.Cells[[2]int{a, c}]; cell != nil {
 						fmt.Fprintf(&b, "%d%s.%d%s.%d.%v.%q", cell.RS, cell.RawRS, cell.CS, cell.RawCS, len(cell.Paras), cell.Nested != nil, cell.wantText())
 						for i := range cell.Paras {
-							b.WriteString("~" + cell.Paras[i].Fam)
+							b.WriteString("~" + cell.Paras[i].Fam + cell.Paras[i].Via)
 						}
 						b.WriteString(",")
 					}
